@@ -51,6 +51,8 @@ func (c *BindingManager) AddBinding(remoteDevice api.DeviceRemoteInterface, data
 		return errors.New("the server feature already has a binding")
 	}
 
+	verifPoint("AddBinding.afterCheck")
+
 	clientFeature := remoteDevice.FeatureByAddress(data.ClientAddress)
 	if clientFeature == nil {
 		return fmt.Errorf("client feature '%s' in remote device '%s' not found", data.ClientAddress, *remoteDevice.Address())
@@ -69,6 +71,7 @@ func (c *BindingManager) AddBinding(remoteDevice api.DeviceRemoteInterface, data
 	defer c.mux.Unlock()
 
 	c.bindingEntries = append(c.bindingEntries, bindingEntry)
+	verifPoint("AddBinding.inserted", bindingEntry.Id)
 
 	payload := api.EventPayload{
 		Ski:          remoteDevice.Ski(),
